@@ -78,16 +78,18 @@ def execute_checked(plan: dict):
 
 
 def confirm_wall(plan: dict, v: dict):
-    """A wall-clock stall is only believed if it repeats with 3x the limit in isolation."""
+    """A wall-clock stall is only believed if the operation stalls again in an
+    isolated re-run with 3x the wall limit (there, the step budget may trip
+    first: then it is reported as the deterministic hang:steps)."""
     p2 = copy.deepcopy(plan)
     p2["wall_factor"] = 3
     r = runner.run_plan(p2, timeout=3600)
     if r["status"] != "ok":
-        return False
+        return None
     for rec in r["result"]["history"]:
-        if rec["i"] == v["op_index"] and rec.get("outcome") == "hang:wall":
-            return True
-    return False
+        if rec["i"] == v["op_index"] and rec.get("outcome") in ("hang:wall", "hang:steps"):
+            return rec["outcome"] + "@" + rec["op"]
+    return None
 
 
 def run_seed(prop: str, seed: int, gold: Goldens):
@@ -116,13 +118,18 @@ def run_seed(prop: str, seed: int, gold: Goldens):
         if res is not None:
             v2, compared = judge(prop, plan, res, goldens)
             vs.extend(v2)
+            if prop == "C09" and name == "faulted" and res0 is not None:
+                vs.extend(oracles.c09_silent_failures(res0, res))
         checked = []
         for v in vs:
             if v["sig"].startswith("HARNESS:"):
                 raise runner.HarnessFailure("seed %d: %s" % (seed, v["sig"]))
-            if v["sig"].startswith("hang:wall") and not confirm_wall(plan, v):
-                raise runner.HarnessFailure("seed %d: unconfirmed wall-clock stall at op %d" % (seed, v["op_index"]))
             v = dict(v)
+            if v["sig"].startswith("hang:wall"):
+                confirmed = confirm_wall(plan, v)
+                if confirmed is None:
+                    raise runner.HarnessFailure("seed %d: unconfirmed wall-clock stall at op %d" % (seed, v["op_index"]))
+                v["sig"] = confirmed
             v["plan"] = plan
             v["phase"] = name
             if prop == "C18" and v.get("key"):
@@ -192,12 +199,26 @@ def summarize(res: dict, compared):
 
 
 # ---------------------------------------------------------------- minimising
-def reproduces(prop: str, plan: dict, sig: str, goldens) -> bool:
+def judge_full(prop: str, plan: dict, goldens):
+    """Run a plan and return every violation signature it shows (used by the
+    minimiser and by replay). For C09 the silent-failure oracle needs the
+    fault-free twin of the plan as well."""
     r = runner.run_plan(plan, timeout=900)
     if r["status"] != "ok":
-        return sig.startswith("process-died")
+        return ["process-died:rc=%s" % r.get("rc")] if r["status"] == "died" else ["timeout"], []
     vs, _ = judge(prop, plan, r["result"], goldens or {})
-    return any(v["sig"] == sig for v in vs)
+    if prop == "C09" and plan.get("faults"):
+        p0 = dict(plan)
+        p0["faults"] = []
+        r0 = runner.run_plan(p0, timeout=900)
+        if r0["status"] == "ok":
+            vs = vs + oracles.c09_silent_failures(r0["result"], r["result"])
+    return [v["sig"] for v in vs], vs
+
+
+def reproduces(prop: str, plan: dict, sig: str, goldens) -> bool:
+    sigs, _ = judge_full(prop, plan, goldens)
+    return sig in sigs
 
 
 def minimise(prop: str, v: dict, max_seconds: float = 120.0) -> dict:
@@ -314,12 +335,7 @@ def replay(prop: str, path: str):
         bad = bool(res[doc["key"]].get("disagree"))
         return bad, doc["signature"], [doc["signature"]] if bad else []
     goldens = {doc["key"]: doc["golden"]} if doc.get("key") and doc.get("golden") else {}
-    r = runner.run_plan(doc["plan"], timeout=1800)
-    if r["status"] != "ok":
-        sigs = ["process-died:rc=%s" % r.get("rc")] if r["status"] == "died" else ["timeout"]
-    else:
-        vs, _ = judge(prop, doc["plan"], r["result"], goldens)
-        sigs = [v["sig"] for v in vs]
+    sigs, _ = judge_full(prop, doc["plan"], goldens)
     return doc["signature"] in sigs, doc["signature"], sigs
 
 
